@@ -1462,6 +1462,8 @@ pub fn replay(cfg: &Cfg, rep: &mut Report) {
             } else if l.starts_with("#seg-bulk") {
                 let m = SMon::from_list(&mon);
                 seg_suites::seg_bulk_case(n, val("pattern").parse().unwrap_or(0), &m, rep, 0).map_err(|e| e.0)
+            } else if l.starts_with("#exp-types") {
+                crate::exp_types::case_from_line(l, rep)
             } else if l.starts_with("#big") {
                 big_case_with(&val("coll"), n, &val("order"), val("hint").parse().unwrap_or(8), seed, rep, &val("probes"))
             } else {
